@@ -6,6 +6,7 @@ import RallyProofs.RaceDeadlock
 import RallyProofs.RaceLive
 import RallyProofs.RacePlain
 import RallyProofs.RaceOfAlloc
+import RallyProofs.RaceMeasure
 /-!
 # C01 — the schedule runs step by step on all clients under any message timing
 
@@ -377,6 +378,41 @@ theorem progress (cfg : Cfg) (hwf : cfg.WF) : ProgressFull cfg cfg.CanEnd := by
   intro hce s hr hunf
   exact no_deadlock_canEnd hwf hce hr hunf
 
+/-! ### termination: a measure that every state-changing step decreases -/
+
+/-- **measure_decreases** — every step other than an idle poll strictly decreases `pot`, a natural number made of the
+    work each worker has left (columns to enter, tasks to return, join points to reach), the messages in flight and
+    the barrier openings / completion broadcasts the driver has left -/
+theorem measure_decreases (cfg : Cfg) (hwf : cfg.WF) (s s' : State) (e : Event) (hr : Reach cfg s)
+    (h : step cfg s e = some s') (hch : Changed s s') : pot cfg s' < pot cfg s :=
+  step_pot (reach_inv hwf hr) h hch
+
+/-- **runs_are_bounded** — no run of a race has more than `pot cfg (init cfg)` state-changing steps: the protocol cannot
+    cycle (no livelock), under any interleaving -/
+theorem runs_are_bounded (cfg : Cfg) (hwf : cfg.WF) (s' : State) (n : Nat) (h : Run cfg (init cfg) n s') :
+    n ≤ pot cfg (init cfg) := by
+  have := run_bounded hwf Reach.init h
+  omega
+
+/-- **maximal_run_is_complete** — liveness in full: a run that cannot be extended by a state-changing step (only idle
+    polls are left) has ended — race control has been sent one TaskFinished per step and BenchmarkComplete.  With
+    `runs_are_bounded`: every run in which enabled state-changing steps are eventually taken reaches that state after
+    at most `pot cfg (init cfg)` of them. -/
+theorem maximal_run_is_complete (cfg : Cfg) (hwf : cfg.WF) (hce : cfg.CanEnd) (s' : State) (n : Nat)
+    (h : Run cfg (init cfg) n s') (hmax : ∀ e s'', step cfg s' e = some s'' → ¬ Changed s' s'') :
+    s'.d.stepP1 = cfg.S + 1 ∧ s'.d2r = List.replicate cfg.S MsgDR.taskFinished ++ [MsgDR.benchComplete] := by
+  have hr : Reach cfg s' := h.reach Reach.init
+  have hinv := reach_inv hwf hr
+  have hfin : s'.d.stepP1 = cfg.S + 1 := by
+    rcases Nat.lt_or_ge cfg.S s'.d.stepP1 with hlt | hge
+    · have := hinv.D_le; omega
+    · obtain ⟨e, s'', hs, hc⟩ := progress cfg hwf hce s' hr hge
+      exact absurd hc (hmax e s'' hs)
+  refine ⟨hfin, ?_⟩
+  have := hinv.d2r_eq
+  rw [hfin] at this
+  simpa using this
+
 /-- configurations whose tasks all end by themselves can end -/
 theorem allFinite_canEnd (cfg : Cfg) (haf : cfg.AllFinite) : cfg.CanEnd := by
   refine ⟨?_, ?_⟩
@@ -446,5 +482,9 @@ def runEvents (cfg : Cfg) : State → List Event → Option State
     | none => none
 
 example : ((runEvents exCfg (init exCfg) exRun).map (·.d2r)) = some [.taskFinished, .benchComplete] := by decide
+
+/-- the measure of the example configuration bounds the state-changing steps of every run of it by 26; the complete
+    run above has 17 events -/
+example : pot exCfg (init exCfg) = 26 ∧ exRun.length = 17 := by decide
 
 end C01
